@@ -673,24 +673,11 @@ fn nullish_scalar(t: &Ty, v: &DV) -> bool {
     }
 }
 /// a composite map key that contains a struct variant or a multi-line string (emitter: the body
-/// of a `? ` key is not indented relative to the key indicator), or a composite key whose value
-/// is itself a collection / payload-carrying variant / multi-line string (emitter: the value
-/// after `:` is not indented consistently)
+/// of a `? ` key is not indented relative to the key indicator). (The value side - a collection,
+/// payload variant or multi-line string as the value of a composite key - used to be part of
+/// this signature; it was repaired by fix 1194319 and is judged again.)
 pub fn sig_complex_key_block_body(t: &Ty, v: &DV) -> bool {
     let mut hit = false;
-    // value side: needs the (key, value) pairs
-    walk(t, v, "root", &mut |mt, mv, _| {
-        if let (Ty::Map(kt, vt), DV::Map(es)) = (mt, mv) {
-            for (k, x) in es {
-                if is_composite(kt, k) {
-                    let (_, x2) = unwrap_transparent(vt, x);
-                    if is_composite(vt, x) || matches!(x2, DV::Str(s) if s.contains('\n')) {
-                        hit = true;
-                    }
-                }
-            }
-        }
-    });
     walk(t, v, "root", &mut |kt, kv, pos| {
         if pos == "map-key" && is_composite(kt, kv) {
             walk(kt, kv, "root", &mut |t2, v2, _| {
